@@ -14,13 +14,23 @@ package router
 //verif:stub github.com/tucats/ego/internal/server/auth.GetPermissions = c20GetPermissions
 //verif:stub github.com/tucats/ego/internal/cli/settings.GetInt = c20GetInt
 //verif:stub github.com/tucats/ego/internal/cli/settings.Get = c20Get
-//verif:bound one route declared by a sequence of up to 3 builder calls from {Authentication(b), Permissions(p | p,q), LightWeight(b), CanAuthenticate(b)} with arbitrary arguments, then one GET request; the outcome of credential processing is arbitrary (authenticated or not, administrator or not, user name, resolved permission list, locked out), as is every answer of the permission store
-//verif:assume Session.Authenticate is replaced by an arbitrary outcome (its internals are properties C21, C22, C24, C25); the request has no body, no query and no Accept header
-//verif:outside the concrete server route table (each declaration there is one of these builder sequences, provided it uses at most 3 of these calls); media-type, parameter and body validation; redirects
+//verif:stub github.com/tucats/ego/internal/util/validate.Validate = c20Validate
+//verif:stub net/http.MaxBytesReader = c20MaxBytes
+//verif:bound one route declared by a sequence of up to 3 builder calls from {Authentication(b), Permissions(p | p,q), LightWeight(b), CanAuthenticate(b), ValidateUsing(v)} with arbitrary arguments, then one request with or without a (2-byte) body whose payload validation succeeds or fails arbitrarily; the outcome of credential processing is arbitrary (authenticated or not, administrator or not, user name, resolved permission list, locked out), as is every answer of the permission store
+//verif:assume Session.Authenticate is replaced by an arbitrary outcome (its internals are properties C21, C22, C24, C25); the request has no query and no Accept header; the body validator (util/validate) is replaced by an arbitrary verdict
+//verif:outside the concrete server route table (each declaration there is one of these builder sequences, provided it uses at most 3 of these calls); media-type and parameter validation; the body validator itself; redirects
 
 import (
+	"bytes"
+	"encoding/base64"
+	"errors"
+	"io"
 	"net/http"
 	"net/url"
+
+	"github.com/tucats/ego/internal/defs"
+	"github.com/tucats/ego/internal/server/auth"
+	"github.com/tucats/ego/internal/util/validate"
 
 	sym "github.com/tucats/ego/internal/zzverif/sym"
 )
@@ -67,6 +77,64 @@ func c20ErrorResponse(w http.ResponseWriter, id int, msg string, status int) int
 	w.(*c20Writer).status = status
 	return status
 }
+var c20BodyValid bool
+
+func c20Validate(data []byte, kind string) error {
+	if c20BodyValid {
+		return nil
+	}
+	return errors.New("payload rejected")
+}
+func c20MaxBytes(w http.ResponseWriter, r io.ReadCloser, n int64) io.ReadCloser { return r }
+
+// ---- native twin: the real credential processing with a real in-memory user store
+
+type c20Users struct{ u defs.User }
+
+func (s *c20Users) ReadUser(session int, name string, doNotLog bool) (defs.User, error) {
+	if name == s.u.Name {
+		return s.u, nil
+	}
+	return defs.User{}, errors.New("no such user")
+}
+func (s *c20Users) WriteUser(session int, u defs.User) error     { s.u = u; return nil }
+func (s *c20Users) DeleteUser(session int, name string) error    { return nil }
+func (s *c20Users) ListUsers(suppress bool) map[string]defs.User { return map[string]defs.User{s.u.Name: s.u} }
+func (s *c20Users) Flush() error                                 { return nil }
+func (s *c20Users) Close() error                                 { return nil }
+
+type c20Required struct {
+	Needed int `json:"needed" validate:"required"`
+}
+
+// c20NativeSetup arranges the real world so that credential processing has the
+// outcome the vector describes (locked-out sessions cannot be arranged).
+func c20NativeSetup(r *http.Request) {
+	sym.Assume(!c20Outcome.lockedOut)
+	perms := []string{defs.LogonPermission}
+	if c20Outcome.admin {
+		perms = append(perms, defs.RootPermission)
+	}
+	for _, p := range []string{"p", "q"} {
+		if c20Store[p] {
+			perms = append(perms, p)
+		}
+	}
+	hash, err := auth.HashPassword("pw")
+	if err != nil {
+		panic(err)
+	}
+	auth.AuthService = &c20Users{u: defs.User{Name: "u", Password: hash, Permissions: perms}}
+	if c20Outcome.authenticated {
+		r.Header.Set("Authorization", "Basic "+base64.StdEncoding.EncodeToString([]byte("u:pw")))
+	}
+	if c20BodyValid {
+		_ = validate.Define("v", struct{}{})
+	} else {
+		_ = validate.Define("v", c20Required{})
+	}
+}
+
 func c20GetPermission(session int, user, privilege string) bool {
 	if user != "u" {
 		return false
@@ -98,7 +166,9 @@ func VerifC20_handlerRunsOnlyForAuthorizedRequests() {
 	requiresAuth, specified := false, false
 	n := sym.Choice("calls", calls+1)
 	for i := 0; i < n; i++ {
-		switch sym.Choice("builder", 4) {
+		switch sym.Choice("builder", 5) {
+		case 4:
+			route.ValidateUsing("v")
 		case 0:
 			b := sym.Bool("arg")
 			route.Authentication(b)
@@ -140,6 +210,13 @@ func VerifC20_handlerRunsOnlyForAuthorizedRequests() {
 	c20Ran, c20Session = false, nil
 	w := &c20Writer{hdr: http.Header{}}
 	r := &http.Request{Method: "GET", URL: &url.URL{Path: "/x"}, Header: http.Header{}}
+	if sym.Bool("hasBody") {
+		r.Body = io.NopCloser(bytes.NewReader([]byte("{}")))
+	}
+	c20BodyValid = sym.Bool("bodyValid")
+	if !sym.Symbolic() {
+		c20NativeSetup(r)
+	}
 	sym.Known("C20-lightweight-route-skips-authentication", c20LightThenAuth(route))
 	m.ServeHTTP(w, r)
 	sym.Reach("served")
